@@ -10,7 +10,13 @@
 //	oversize after some valid frames, a header announcing more than the receive limit: a frame of limit+1 bytes sent in
 //	         full must not be delivered; a header announcing 64 MiB - 1 GiB (no body) must not make the node allocate it
 //
-// A read that does not finish within the case's generous deadline is not judged (dropped), never a violation.
+//	conn-pair two Conns over TCP, the sending one on a slow link (a pause after every socket write) with keepalive pings
+//	         every 0.5-2 ms, the receiving one answering or pinging itself: what the receiver delivers must be a prefix of
+//	         what was sent, byte for byte (pings and pongs must never land inside a frame)
+//
+// A read that does not finish within the case's generous deadline is not judged (dropped), never a violation - unless
+// the goroutine dump proves it can never finish: every goroutine of the connection is parked in a WaitGroup wait /
+// semaphore (nobody is left to release it), e.g. the receive routine waiting for its own exit.
 package main
 
 import (
@@ -24,9 +30,11 @@ import (
 	"net"
 	"os"
 	"path/filepath"
+	"regexp"
 	"runtime"
 	"strings"
 	"sync"
+	"sync/atomic"
 	"time"
 
 	"github.com/massnetorg/mass-core/logging"
@@ -133,11 +141,64 @@ func frame(body []byte) []byte {
 	return f
 }
 
+var goroutineHeadRe = regexp.MustCompile(`^goroutine \d+ \[([^\],]+)`)
+
+// connDeadlock inspects a dump of all goroutines: it reports true when goroutines with connection.(*Conn) frames
+// exist and every one of them is parked in a WaitGroup wait / semaphore acquire - none of them is in a network read,
+// a timer, runnable or running, so nothing can ever release the wait. The blocked frames are returned.
+func connDeadlock(dump string) (bool, []string) {
+	var frames []string
+	n := 0
+	for _, blk := range strings.Split(dump, "\n\n") {
+		if !strings.Contains(blk, "fractal/connection.(*Conn).") {
+			continue
+		}
+		m := goroutineHeadRe.FindStringSubmatch(strings.TrimSpace(blk))
+		if m == nil {
+			continue
+		}
+		n++
+		st := m[1]
+		if st != "semacquire" && st != "sync.WaitGroup.Wait" {
+			return false, nil
+		}
+		var fr []string
+		for _, l := range strings.Split(blk, "\n") {
+			if strings.HasPrefix(l, "massnet.org/mass/fractal/connection.") {
+				fr = append(fr, strings.SplitN(l, "(0x", 2)[0])
+			}
+		}
+		frames = append(frames, st+" in "+strings.Join(fr, " <- "))
+	}
+	return n > 0, frames
+}
+
+func allGoroutines() string {
+	buf := make([]byte, 16<<20)
+	return string(buf[:runtime.Stack(buf, true)])
+}
+
+// slowConn is a link on which every socket write is followed by a short pause (a congested or slow peer). Write may be
+// called from several goroutines, as on a real socket.
+type slowConn struct {
+	net.Conn
+	n     uint64
+	maxUs uint64
+}
+
+func (c *slowConn) Write(b []byte) (int, error) {
+	n, err := c.Conn.Write(b)
+	k := atomic.AddUint64(&c.n, 1)
+	time.Sleep(time.Duration(k*7919%c.maxUs) * time.Microsecond)
+	return n, err
+}
+
 type wirePair struct {
 	client net.Conn
 	conn   *connection.Conn
 	closer context.CancelFunc
 	ln     net.Listener
+	closed bool
 }
 
 func newWirePair() (*wirePair, error) {
@@ -171,15 +232,23 @@ func newWirePair() (*wirePair, error) {
 	return &wirePair{client: cl, conn: conn, closer: closer, ln: ln}, nil
 }
 
-func (p *wirePair) close() {
+// close tears the pair down; false if the connection's closer did not return within 10 s.
+func (p *wirePair) close() bool {
+	if p.closed {
+		return true
+	}
+	p.closed = true
 	p.client.Close()
 	done := make(chan struct{})
 	go func() { p.closer(); close(done) }()
+	ok := true
 	select {
 	case <-done:
 	case <-time.After(10 * time.Second):
+		ok = false
 	}
 	p.ln.Close()
+	return ok
 }
 
 var wirePlans = []string{"whole", "header-split", "two", "many", "mtu", "mtu"}
@@ -187,13 +256,24 @@ var wirePlans = []string{"whole", "header-split", "two", "many", "mtu", "mtu"}
 func wireCase(i int, root *vh.Rng, pl *pool) *wireRes {
 	rng := root.Derive("wire", i)
 	res := &wireRes{Idx: i, Counts: map[string]int64{}}
-	res.Class = []string{"honest", "honest", "raw", "oversize", "honest", "hostile-reader", "raw", "ping-flood"}[i%8]
+	res.Class = []string{"honest", "honest", "raw", "oversize", "conn-pair", "hostile-reader", "raw", "ping-flood"}[i%8]
 	p, err := newWirePair()
 	if err != nil {
 		res.Dropped = "cannot set up the loopback pair: " + err.Error()
 		return res
 	}
-	defer p.close()
+	defer func() {
+		if p.close() {
+			return
+		}
+		// the peer is gone and the connection was told to stop 10 s ago
+		res.add("teardowns_not_finished_within_10s", 1)
+		if dead, frames := connDeadlock(allGoroutines()); dead {
+			res.Dropped = ""
+			res.violate("connection-deadlocked", map[string]string{"class": res.Class, "blocked": trim(strings.Join(frames, "; "), 300)},
+				map[string]interface{}{"blocked_goroutines": frames, "rule": "every goroutine of the connection is parked in a WaitGroup wait / semaphore: nothing is left that could release it"})
+		}
+	}()
 	var hash bytes.Buffer
 	fmt.Fprintf(&hash, "%s|", res.Class)
 
@@ -500,6 +580,111 @@ func wireCase(i int, root *vh.Rng, pl *pool) *wireRes {
 		case <-done:
 		case <-time.After(20 * time.Second):
 		}
+	case "conn-pair":
+		p.close()
+		ln, err := net.Listen("tcp", "127.0.0.1:0")
+		if err != nil {
+			res.Dropped = "listen failed"
+			return res
+		}
+		defer ln.Close()
+		accepted := make(chan net.Conn, 1)
+		go func() {
+			c, err := ln.Accept()
+			if err == nil {
+				accepted <- c
+			}
+		}()
+		cl, err := net.DialTimeout("tcp", ln.Addr().String(), 5*time.Second)
+		if err != nil {
+			res.Dropped = "dial failed"
+			return res
+		}
+		var sc net.Conn
+		select {
+		case sc = <-accepted:
+		case <-time.After(5 * time.Second):
+			cl.Close()
+			res.Dropped = "accept failed"
+			return res
+		}
+		// pings must stay rarer than socket writes are slow: the send routine serves its priority queue (pings) first, so
+		// a ping interval below the time one write takes starves the data frames (not this check's business)
+		pauseUs := rng.PickI(60, 150, 300)
+		kiS := time.Duration(rng.PickI(500, 1000, 2000)) * time.Microsecond
+		kiR := time.Duration(0)
+		if rng.Bool() {
+			kiR = time.Duration(rng.PickI(700, 1500)) * time.Microsecond
+		}
+		sender, sClose, err1 := connection.NewConn(connection.WithNetConn(&slowConn{Conn: cl, maxUs: uint64(pauseUs)}), connection.KeepaliveInterval(kiS), connection.KeepaliveTimeout(0))
+		recv, rClose, err2 := connection.NewConn(connection.WithNetConn(&slowConn{Conn: sc, maxUs: uint64(pauseUs)}), connection.KeepaliveInterval(kiR), connection.KeepaliveTimeout(0))
+		if err1 != nil || err2 != nil {
+			res.Dropped = "NewConn failed"
+			return res
+		}
+		n := rng.Range(20, 60)
+		bodies := make([][]byte, n)
+		back := make([][]byte, n/2)
+		for k := range bodies {
+			bodies[k] = append([]byte(fmt.Sprintf("fwd-%06d:", k)), rng.Bytes(1+rng.Intn(3000))...)
+		}
+		for k := range back {
+			back[k] = append([]byte(fmt.Sprintf("back-%06d:", k)), rng.Bytes(1+rng.Intn(600))...)
+		}
+		res.Desc = append(res.Desc, fmt.Sprintf("two Conns over TCP: %d frames one way, %d the other; pause of up to %d us after every socket write; sender pings every %s, receiver %s",
+			n, len(back), pauseUs, kiS, map[bool]string{true: "answers pings", false: "pings every " + kiR.String()}[kiR == 0]))
+		fmt.Fprintf(&hash, "pair-%d-%d-%d-%d", n, pauseUs, kiS, kiR)
+		ctx, cancel := context.WithTimeout(context.Background(), wireReadDeadline)
+		var wg sync.WaitGroup
+		pump := func(c *connection.Conn, frames [][]byte) {
+			defer wg.Done()
+			for _, b := range frames {
+				if c.Send(ctx, b) != nil {
+					return
+				}
+			}
+		}
+		// check reads what arrives at c: it must be a prefix of want
+		check := func(c *connection.Conn, want [][]byte, dir string) {
+			defer wg.Done()
+			for k := range want {
+				got, err := c.Read(ctx)
+				if err != nil {
+					res.add("pair_reads_ended_early(not judged)", 1)
+					return
+				}
+				res.add("pair_frames_delivered", 1)
+				if !bytes.Equal(got, want[k]) {
+					d := 0
+					for d < len(got) && d < len(want[k]) && got[d] == want[k][d] {
+						d++
+					}
+					res.violate("frame-damaged-between-connections", map[string]string{"direction": dir},
+						map[string]interface{}{"frame_index": k, "sent_len": len(want[k]), "delivered_len": len(got), "first_difference_at": d,
+							"sent_head": fmt.Sprintf("%x", want[k][:minInt(24, len(want[k]))]), "delivered_head": fmt.Sprintf("%x", got[:minInt(24, len(got))])})
+					return
+				}
+			}
+		}
+		wg.Add(4)
+		go pump(sender, bodies)
+		go pump(recv, back)
+		go check(recv, bodies, "slow-link sender to receiver")
+		go check(sender, back, "receiver to slow-link sender")
+		wg.Wait()
+		cancel()
+		res.Nontrivial = true
+		closed := make(chan struct{})
+		go func() { sClose(); rClose(); close(closed) }()
+		select {
+		case <-closed:
+		case <-time.After(10 * time.Second):
+			res.add("teardowns_not_finished_within_10s", 1)
+			if dead, frames := connDeadlock(allGoroutines()); dead {
+				res.violate("connection-deadlocked", map[string]string{"class": res.Class, "blocked": trim(strings.Join(frames, "; "), 300)},
+					map[string]interface{}{"blocked_goroutines": frames})
+			}
+		}
 	case "oversize":
 		// a couple of valid frames first
 		var bodies [][]byte
@@ -682,4 +867,11 @@ func runWire(run *vh.Run, exe string, base, n int, only int) {
 			}
 		}
 	})
+}
+
+func minInt(a, b int) int {
+	if a < b {
+		return a
+	}
+	return b
 }
